@@ -313,7 +313,7 @@ def selectors_and_rest(rep: Report, prog: Program) -> None:
     ROLES = (("sleep_fn", "sleep", "sleep"), ("before_sleep", "before_sleep", "before_sleep"), ("sleeper", "sleeper", "sleeper"), ("attempt_start_hook", "on_attempt_start", "on_attempt_start"), ("attempt_end_hook", "on_attempt_end", "on_attempt_end"))
     eng = engine(prog)
     inline0 = eng.inline
-    eng.inline = lambda f, inline0=inline0: bool(inline0 and inline0(f)) or f.qual.startswith(f"{HELPERS}:_resolve_")
+    eng.inline = lambda f, inline0=inline0: bool(inline0 and inline0(f)) or (f.name.startswith("_resolve_") and f.cls is None)
     n_sites = 0
     try:
         for cls, runner in (("redress.policy.retry_sync:Retry", "run_sync_"), ("redress.policy.retry_async:AsyncRetry", "run_async_")):
